@@ -223,16 +223,17 @@ def _pool_call(i: int) -> Any:
         return ("error", f"{item!r:.80}: {type(e).__name__}: {e}\n{traceback.format_exc(limit=8)}")
 
 
-def pmap(fn: Callable[[Any], Any], items: List[Any], procs: Optional[int] = None, chunksize: int = 1) -> List[Tuple[str, Any]]:
+def pmap(fn: Callable[[Any], Any], items: List[Any], procs: Optional[int] = None, chunksize: int = 1, fresh: bool = False) -> List[Tuple[str, Any]]:
     """Run fn over items in a fork pool (items and fn are inherited by fork, so they need not
     be picklable). Results are ('ok', r) | ('inconclusive', why) | ('error', tb)."""
     global _POOL_FN, _POOL_ITEMS
     procs = procs or ncpu()
     _POOL_FN, _POOL_ITEMS = fn, list(items)
-    if procs <= 1 or len(items) <= 1:
+    if (procs <= 1 or len(items) <= 1) and not fresh:
         return [_pool_call(i) for i in range(len(items))]
     ctx = mp.get_context("fork")
-    with ctx.Pool(min(procs, len(items))) as pool:
+    # fresh: every item runs in a process of its own, forked from this one (module state as it is here)
+    with ctx.Pool(max(1, min(procs, len(items))), maxtasksperchild=1 if fresh else None) as pool:
         return pool.map(_pool_call, range(len(items)), chunksize=chunksize)
 
 
